@@ -229,6 +229,46 @@ fn check_value_eq(t: &T, l: &L, out: &mut CaseOut) {
             bad(format!("{} vs str {:?}: {:?}, model {}", t, s, got, m));
         }
     }
+    // a literal as a bare LValue against Rust values of every kind
+    let lv = match t {
+        T::Bool(b) => Some(LValue::Bool(*b)),
+        T::Int(i) => Some(LValue::Number(*i as isize)),
+        T::Char(c) => Some(LValue::Char(*c)),
+        T::Str(s) => Some(LValue::String(s.clone())),
+        _ => None,
+    };
+    if let Some(lv) = lv {
+        for b in [true, false] {
+            let m = *t == T::Bool(b);
+            n += 1;
+            if (lv == b) != m || (b == lv) != m {
+                bad(format!("LValue {:?} vs bool {}: {} / {}, model {}", lv, b, lv == b, b == lv, m));
+            }
+        }
+        for i in [-1isize, 0, 1, 2, 3] {
+            let m = *t == T::Int(i as i64);
+            n += 1;
+            if (lv == i) != m || (i == lv) != m {
+                bad(format!("LValue {:?} vs isize {}: {} / {}, model {}", lv, i, lv == i, i == lv, m));
+            }
+        }
+        for c in ['a', 'x'] {
+            let m = *t == T::Char(c);
+            n += 1;
+            if (lv == c) != m || (c == lv) != m {
+                bad(format!("LValue {:?} vs char {:?}: {} / {}, model {}", lv, c, lv == c, c == lv, m));
+            }
+        }
+        for s in ["", "a", "s", "1", "true"] {
+            let m = *t == T::Str(s.to_string());
+            n += 1;
+            let owned = s.to_string();
+            let got = [lv == s, s == lv, lv == *s, *s == lv, lv == owned, owned == lv];
+            if got.iter().any(|g| *g != m) {
+                bad(format!("LValue {:?} vs str {:?}: {:?}, model {}", lv, s, got, m));
+            }
+        }
+    }
     // LResult against LTerm
     n += 1;
     if !(res == *l && *l == res) {
